@@ -59,8 +59,10 @@ pub assume_specification[ u32::is_power_of_two ](x: u32) -> (r: bool)
 #[verifier::external_body]
 pub fn __from_utf8_unchecked(v: Vec<u8>) -> (r: String)
     requires forall|i: int| 0 <= i < v@.len() ==> v@[i] < 128
-    ensures sbytes(r) == v@
+    ensures sbytes(r) == v@, r@ == ascii_chars(v@)
 { unimplemented!() }
+/// ASCII bytes as characters
+pub open spec fn ascii_chars(s: Seq<u8>) -> Seq<char> { s.map_values(|b: u8| b as char) }
 /// the UTF-8 bytes of a String (uninterpreted; fixed by the constructor above)
 pub uninterp spec fn sbytes(s: String) -> Seq<u8>;
 
